@@ -156,15 +156,17 @@ PROPS = {
                  "five streams ends with a 20-byte block that is not a STUN header) fed to StunPacketDecoder in chunks, a "
                  "fresh decoder taking the rest of a chunk after each Decoded; ALL 2-cut chunkings (quick <=160, thorough "
                  "<=420 byte streams) and ALL 3-cut chunkings (quick <=48, thorough <=96), random k<=12-cut and "
-                 "byte-by-byte chunkings for streams up to 3100 bytes; buffer sizes len-1, len, len+1, 20, smaller, "
-                 "larger. A position-tracking model states for every call what must come back: Decoded exactly when the "
+                 "byte-by-byte chunkings for streams up to 3100 bytes; small|big|small streams whose middle packet has "
+                 "one of the largest legal lengths (65,512-65,532 attribute bytes); buffer sizes len-1, len, len+1, 20, "
+                 "smaller, larger, the buffer being a Vec of exactly that length with 0/1/3/16/4096 bytes of spare "
+                 "capacity behind it and zero or non-zero old contents. A position-tracking model states for every call what must come back: Decoded exactly when the "
                  "chunk completes the packet with consumed = bytes needed, packet bytes identical, MoreBytesNeeded(None) "
                  "before 20 bytes were seen and Some(exact remainder) afterwards, InvalidStunPacket / SmallBuffer at the "
                  "chunk that completes the header with consumed = header bytes taken and the buffer handed back; the final "
                  "outcome must not depend on the chunking. Distinct = hash of the stream bytes."),
         "assumptions": [],
         "min_counters": {"chunkings": 100000, "outcome.complete": 50, "outcome.invalid-header": 10,
-                         "outcome.small-buffer": 50},
+                         "outcome.small-buffer": 50, "near-64k.streams": 8},
     },
     "C05": {
         "title": "Each request gets at most one final outcome and then falls silent",
